@@ -137,7 +137,11 @@ def twice(base, chk, routine):
         path = p
         path.outcome = None
         path.frames = []
-    once_runs = sum(1 for e in path.log if e[0] == "once_begin")
+    runs = {}
+    for e in path.log:
+        if e[0] == "once_begin":
+            runs[(e[1], e[2])] = runs.get((e[1], e[2]), 0) + 1
+    once_runs = max(runs.values()) if runs else 0
     ok = all(isinstance(g, GM.G) and g.kind == "vec" for g in outs)
     t0 = time.time()
     verdict = "unsat"
@@ -149,7 +153,7 @@ def twice(base, chk, routine):
     else:
         verdict = "sat"
     chk.add(Ob("%s: a second call on the same arguments yields the identical result (tables already built)" % routine, verdict, time.time() - t0, [fname], "group mode / LIA"))
-    chk.fact("%s: the table initialiser ran exactly once across both calls" % routine, once_runs == 1, [fname], "effects")
+    chk.fact("%s: every table initialiser ran exactly once across both calls (%d Once objects)" % (routine, len(runs)), once_runs == 1, [fname], "effects")
 
 
 def fresh_battery(seed):
